@@ -70,6 +70,7 @@ def main():
                     ps = [4096, 512, 1024, 8192][k % 4] if tier == "thorough" else [4096, 512][k % 2]
                     cfg = corelib.mk_cfg(seed * 7919 + k, page_size=ps, rows=6, min_pg=mp, trunc_pg=tp, interval_ms=iv,
                                          init_ckpt=True, max_bytes=((ps + 24) * 2 if k % 5 == 0 else 0))
+                    cfg["full"] = True      # pre-state before every litestream call: binding of Policy.tla (Trace_Policy.tla)
                     cases.append({"id": k, "cfg": cfg, "sched": to_driver(s, rnd, 6, rnd.randint(4, 8)), "label": "sim"})
                     k += 1
         by_id = {c["id"]: c for c in cases}
@@ -94,6 +95,7 @@ def main():
             evs = events.get(c["id"], [])
             rep.sample({"cfg": c["cfg"], "schedule": c["sched"][:30],
                         "observed": [[e["op"], e["res"], e["wal"]["valid"], len(e["newl0"])] for e in evs[:30]]})
+        corelib.policy_conformance(rep, wd, out, PROP)
         corelib.classify(rep, PROP, by_id, events, verdicts, hazards, set(INV), PROP)
         return rep.finish()
     finally:
